@@ -1,1 +1,74 @@
-(* C19 - to be filled *)
+(* C19 - generation never crashes: declarative definitions. *)
+From Slinky Require Import Model.Types Model.Runtime Model.Script Model.Writer.
+
+(* every error of [r] satisfies [P] *)
+Definition errs {A} (P : err -> Prop) (r : res A) : Prop := forall e, r = Err e -> P e.
+
+(* the result is a value or an error value other than the model's stand-in for a panic *)
+Definition no_crash {A} (r : res A) : Prop := forall w, r <> Err (ECrash w).
+
+(* the kinds of error that generation (as opposed to parsing) can return *)
+Inductive gen_error : err -> Prop :=
+| ge_option path key : gen_error (ECustomOptionNotProvided path key)
+| ge_class seg cls : gen_error (EMissingVramClassForSegment seg cls)
+| ge_count n : gen_error (EInvalidSegmentCount n)
+| ge_cycle seg section : gen_error (ESubgroupCycle seg section).
+
+(* ... and the partial writer *)
+Inductive gen_partial_error : err -> Prop :=
+| gpe_gen e : gen_error e -> gen_partial_error e
+| gpe_field name : gen_partial_error (EMissingRequiredField name).
+
+(* no edge of the sub-group expansion of file [f] leads upwards: [rank] strictly decreases from the
+   section being expanded to every section its expansion recurses into *)
+Definition chain_decreasing (seg : segment) (sections : list string) (rank : string -> nat)
+           (f : file_info) : Prop :=
+  forall section k others other,
+    In k (sections_here f section sections) ->
+    lookup k (sections_subgroups seg) = Some others -> In other others ->
+    rank other < rank section.
+
+Fixpoint chain_decreasing_deep (seg : segment) (sections : list string) (rank : string -> nat)
+         (f : file_info) : Prop :=
+  chain_decreasing seg sections rank f /\
+  (fix all (l : list file_info) : Prop :=
+     match l with
+     | [] => True
+     | c :: r => chain_decreasing_deep seg sections rank c /\ all r
+     end) (fi_files f).
+
+(* ---------- block structure of the rendered text ---------- *)
+
+(* leading spaces removed *)
+Fixpoint strip_indent (s : string) : string :=
+  match s with
+  | String " " r => strip_indent r
+  | _ => s
+  end.
+
+(* a lone brace, possibly indented: the only texts that open or close a block *)
+Definition is_brace (t : string) : Prop := strip_indent t = "{"%string \/ strip_indent t = "}"%string.
+
+(* [blocks ind l]: [l] is a sequence of items at indentation [ind]; an item is a blank line, a
+   one-line statement (indentation then a text that is not a lone brace), or a block: a header line,
+   the opening brace on its own line, items one level deeper, the closing brace on its own line *)
+Inductive blocks : nat -> list string -> Prop :=
+| bl_nil ind : blocks ind []
+| bl_blank ind r : blocks ind r -> blocks ind (""%string :: r)
+| bl_line ind t r : ~ is_brace t -> blocks ind r -> blocks ind ((indent_str ind ++ t)%string :: r)
+| bl_block ind header body r :
+    ~ is_brace header -> blocks (S ind) body -> blocks ind r ->
+    blocks ind ((indent_str ind ++ header)%string :: (indent_str ind ++ "{")%string ::
+                body ++ (indent_str ind ++ "}")%string :: r).
+
+(* a reader that only counts lone braces: the nesting depth after the lines, [None] when a block is
+   closed that was never opened *)
+Fixpoint depth_after (d : nat) (lines : list string) : option nat :=
+  match lines with
+  | [] => Some d
+  | l :: r =>
+      if String.eqb (strip_indent l) "{" then depth_after (S d) r
+      else if String.eqb (strip_indent l) "}" then
+             match d with O => None | S d' => depth_after d' r end
+      else depth_after d r
+  end.
